@@ -75,6 +75,21 @@ def qubitAxis (loc : Coord) : Option Axis := Cubic3D.qubitAxis loc
 def getDeformation (name : String) (axis : Option String) (loc : Coord) : Option PauliMap :=
   Cubic3D.getDeformation "y" name axis loc
 
+/-- an explicit family of `n − k` stabilizer locations whose operators are GF(2)-independent (proved for
+    every size `≥ 2` in `Proofs/LatToric3DCodeRank.lean`; nine blocks: vertices with `x ≠ 0`, with `x = 0 ≠ y`,
+    with `x = y = 0 ≠ z`; xz / yz faces below the top layer; top-layer yz "teeth" and xz "spine"; xy faces
+    of the layer `z = 0` in the last column and elsewhere) -/
+def rankFamily (Lx Ly Lz : Nat) : List Coord :=
+  grid (range2 2 (2 * (Lx : Int))) (range2 0 (2 * (Ly : Int))) (range2 0 (2 * (Lz : Int))) ++
+  grid [0] (range2 2 (2 * (Ly : Int))) (range2 0 (2 * (Lz : Int))) ++
+  grid [0] [0] (range2 2 (2 * (Lz : Int))) ++
+  grid (range2 1 (2 * (Lx : Int))) (range2 0 (2 * (Ly : Int))) (range2 1 (2 * (Lz : Int) - 1)) ++
+  grid (range2 0 (2 * (Lx : Int))) (range2 1 (2 * (Ly : Int))) (range2 1 (2 * (Lz : Int) - 1)) ++
+  grid (range2 0 (2 * (Lx : Int))) (range2 1 (2 * (Ly : Int) - 1)) [2 * (Lz : Int) - 1] ++
+  grid (range2 1 (2 * (Lx : Int) - 1)) [0] [2 * (Lz : Int) - 1] ++
+  grid [2 * (Lx : Int) - 1] (range2 1 (2 * (Ly : Int) - 1)) [0] ++
+  grid (range2 1 (2 * (Lx : Int) - 1)) (range2 1 (2 * (Ly : Int))) [0]
+
 def lattice (Lx Ly Lz : Nat) : Lattice :=
   { qubits := qubits Lx Ly Lz, stabs := stabs Lx Ly Lz, getStab := getStab Lx Ly Lz,
     logX := logX Lx Ly Lz, logZ := logZ Lx Ly Lz }
